@@ -136,6 +136,7 @@ func c18Gen(tier string, seed int64) []fw.Case {
 				"both-idle-expiry-setdeadline", "read-deadline-moved-while-blocked", "read-future-deadline-not-reached", "write-idle-expiry-then-only-read-reset",
 				"read-idle-expiry-with-partial-message", "write-idle-expiry-empty-write",
 				"read-active-past-deadline", "write-active-past-deadline",
+				"read-future-deadline-removed-idle", "write-future-deadline-removed-idle", "both-future-deadline-removed-idle", "read-future-deadline-removed-active",
 			} {
 				add(c18Desc{Kind: "deadline", Role: role, DL: sc}, fmt.Sprintf("deadline/%s/%s", role, sc))
 			}
@@ -653,6 +654,70 @@ func c18Deadline(r *fw.R, d c18Desc) {
 			set(writeSide, time.Now().Add(30*time.Second))
 		}
 		if !roundTrip("reset") {
+			return
+		}
+	case "read-future-deadline-removed-idle", "write-future-deadline-removed-idle", "both-future-deadline-removed-idle", "read-future-deadline-removed-active":
+		// a deadline in the near future is removed (zero time) before it passes: nothing may happen when the
+		// moment it named comes, neither while idle nor to a call that is blocked then
+		both := d.DL[:4] == "both"
+		dl := time.Now().Add(60 * time.Millisecond)
+		if both {
+			nc.SetDeadline(dl)
+		} else {
+			set(writeSide, dl)
+		}
+		time.Sleep(5 * time.Millisecond)
+		if time.Until(dl) < 20*time.Millisecond {
+			return // (slow machine: the deadline is about to pass anyway; nothing to judge)
+		}
+		if both {
+			nc.SetDeadline(time.Time{})
+		} else {
+			set(writeSide, time.Time{})
+		}
+		res := make(chan error, 1)
+		active := d.DL == "read-future-deadline-removed-active"
+		if active {
+			go func() { _, err := nc.Read(buf); res <- err }()
+		}
+		time.Sleep(time.Until(dl) + 80*time.Millisecond)
+		fired := obs.readIdle.Load() + obs.readActive.Load() + obs.writeIdle.Load() + obs.writeActive.Load()
+		if fired != 0 {
+			r.Violate("C18/removed-deadline-fired/"+d.DL, fmt.Sprintf("%s: the deadline was removed 50 ms before it would have passed, yet its timer ran (read idle=%d active=%d, write idle=%d active=%d)", what, obs.readIdle.Load(), obs.readActive.Load(), obs.writeIdle.Load(), obs.writeActive.Load()), "")
+			return
+		}
+		r.Count("removed_deadlines_that_stayed_silent", 1)
+		if active {
+			select {
+			case err := <-res:
+				r.Violate("C18/removed-deadline-fired/"+d.DL, fmt.Sprintf("%s: a Read blocked across the moment of the removed deadline returned %v", what, err), "")
+				return
+			default:
+			}
+			peer.Send(wire.Data(wire.OpBinary, true, []byte("late!")))
+			select {
+			case err := <-res:
+				if err != nil || string(buf[:5]) != "late!" {
+					r.Violate("C18/removed-deadline-fired/"+d.DL, fmt.Sprintf("%s: the blocked Read returned %q, %v", what, buf[:5], err), "")
+					return
+				}
+			case <-time.After(10 * time.Second):
+				r.Violate("C18/stream-read-failed", what+": data sent after the removed deadline did not reach the blocked Read", "")
+				return
+			}
+		} else {
+			for _, w := range []bool{false, true} {
+				if w == writeSide || both {
+					if w {
+						if _, err := nc.Write([]byte("after")); err != nil {
+							r.Violate("C18/removed-deadline-fired/"+d.DL, fmt.Sprintf("%s: a Write after the moment of the removed deadline failed: %v", what, err), "")
+							return
+						}
+					}
+				}
+			}
+		}
+		if !roundTrip("removed-deadline") {
 			return
 		}
 	case "read-idle-expiry-with-partial-message":
